@@ -94,3 +94,20 @@ fn full_exit_code() {
     let expect = if ec != 0 { ec } else if code.is_some() && flag_val { code.unwrap() } else { 0 };
     assert!(got == expect, "[C16] exit status: non-zero passed through, else the any-errors code iff configured and something was reported, else 0");
 }
+
+// @harness id=full_cfg_custom_checks_gate props=C20,C04 kind=full tier=quick fns=Cfg::custom_checks_enabled,Cfg::custom_checks,Cfg::cdps,Cfg::triggers_pht,Cfg::rdh_version,Cfg::chip_count_ob
+// The real CLI config: custom checks are enabled iff the loaded file sets at least one of the five keys,
+// and every key is handed out as configured.
+#[kani::proof]
+#[kani::unwind(4)]
+fn full_cfg_custom_checks_gate() {
+    use crate::config::custom_checks::custom_checks_cfg::verif_custom_cfg::mk_custom_checks;
+    let (a, b, o, c, v): (Option<u32>, Option<u32>, bool, Option<u8>, Option<u8>) = (kani::any(), kani::any(), kani::any(), kani::any(), kani::any());
+    let _ = CUSTOM_CHECKS.set(mk_custom_checks(a, b, o, c, v));
+    let mut cfg = cfg_with(6, None, None);
+    cfg.checks_toml = Some(PathBuf::new());
+    let cfg: &'static Cfg = Box::leak(Box::new(cfg));
+    let any_key = a.is_some() || b.is_some() || o || c.is_some() || v.is_some();
+    assert!(cfg.custom_checks_enabled() == any_key, "[C20] custom checks are enabled iff the file sets at least one key (every key counts)");
+    assert!(cfg.cdps() == a && cfg.triggers_pht() == b && cfg.chip_count_ob() == c && cfg.rdh_version() == v && cfg.chip_orders_ob().is_some() == o, "[C20] every configured key reaches its check as configured");
+}
